@@ -1,3 +1,46 @@
 // Kani harnesses for src/crypto/checksum.rs (child module: sees private items). See /verif/DESIGN.md 8.1 Engine K.
 #![allow(dead_code, unused_imports)]
 use super::*;
+
+/// K13 (C08/C04): the two-octet checksum of RFC 9580 5.5.3 / 5.1 ("sum of all octets mod 65536")
+/// for every data of <= 4 octets: `calculate_simple` == the sum computed here in u32; feeding the
+/// data in two chunks through the incremental `SimpleChecksum` gives the same value; `finalize` and
+/// `to_writer` give it big-endian; `simple()` accepts exactly that checksum.  Additionally the
+/// accumulator wraps instead of panicking from ANY starting value (all u16), which is what makes
+/// the result independent of the data length.  Bounded(4 octets, 2 chunks).
+#[kani::proof]
+#[kani::unwind(6)]
+fn k13_simple_checksum_le4() {
+    let data: [u8; 4] = kani::any();
+    let n: usize = kani::any();
+    let k: usize = kani::any();
+    kani::assume(n <= 4 && k <= n); // input shaping: length and split position
+    let mut want: u32 = 0;
+    let mut i = 0;
+    while i < n {
+        want += data[i] as u32;
+        i += 1;
+    }
+    let want = (want % 65536) as u16;
+    let one_shot = calculate_simple(&data[..n]);
+    assert!(one_shot == want, "calculate_simple != sum of octets mod 65536");
+
+    let mut inc = SimpleChecksum::default();
+    Hasher::write(&mut inc, &data[..k]);
+    Hasher::write(&mut inc, &data[k..n]);
+    assert!(inc.finish() == want as u64, "incremental checksum != one-shot checksum");
+    assert!(inc.finalize() == [(want >> 8) as u8, want as u8], "checksum is not written big-endian");
+    let mut out = [0u8; 2];
+    let mut sl: &mut [u8] = &mut out[..];
+    assert!(inc.to_writer(&mut sl).is_ok());
+    assert!(out == [(want >> 8) as u8, want as u8], "to_writer is not the big-endian checksum");
+    assert!(simple([(want >> 8) as u8, want as u8], &data[..n]).is_ok(), "correct checksum rejected");
+
+    // wrap-around from any accumulator value
+    let start: u16 = kani::any();
+    let mut acc = SimpleChecksum(start);
+    Hasher::write(&mut acc, &data[..n]);
+    assert!(acc.finish() == (start.wrapping_add(want)) as u64, "accumulator does not wrap mod 65536");
+    kani::cover!(n == 4 && k == 2 && want == 1020);
+    kani::cover!(start == 0xFFFF && n == 1 && data[0] == 2 && acc.finish() == 1);
+}
